@@ -176,6 +176,30 @@ def check(run: Run) -> None:
 
     apps = [e_ for e_ in _ce(ctx, ps, lambda n_: n_ == "append") if _bucket(strip_sites(e_.recv) if e_.recv is not None else None)]
     run.check(len(apps) == 1, "C03.R3", ps, ps.node, "lambdas are bucketed by the preceding identifier", f"{len(apps)} bucket appends")
+    # R9: a candidate starts on the line the callable starts on (the code object knows it): the scan may have backed up
+    # to the start of the statement, and a lambda in front of the callable's line - same method, same argument name -
+    # is not the callable
+    run.rule("C03.R9", "only a lambda whose `lambda` token stands on the callable's own first line (from the code object) becomes a candidate")
+    for e_ in apps:
+        if e_.owner is not ps and not hasattr(e_, "call"):
+            continue
+        fo_ = ctx.analysis(e_.owner)
+        on_line = False
+        for a, pol in Facts(fo_, e_.call).atoms:
+            if not (pol and isinstance(a, ast.Compare) and len(a.ops) == 1 and isinstance(a.ops[0], ast.Eq)):
+                continue
+            sides = [a.left, a.comparators[0]]
+            terms_ = []
+            for sd in sides:
+                try:
+                    terms_.append(strip_sites(fo_.term_of(sd)))
+                except AnalysisError:
+                    terms_.append(("top", "?"))
+            tok_line = [t_ for t_ in terms_ if contains(t_, lambda q: len(q) == 3 and q[0] == "attr" and q[2] == "start")]
+            src_line = [t_ for t_ in terms_ if contains(t_, lambda q: len(q) >= 3 and q[0] == "app" and isinstance(q[1], tuple) and len(q[1]) == 2 and q[1][0] == "global" and str(q[1][1]).endswith(("_get_sourcelines", "inspect.findsource", "inspect.getsourcelines"))) or contains(t_, lambda q: len(q) == 3 and q[0] == "attr" and q[2] == "co_firstlineno")]
+            if tok_line and src_line:
+                on_line = True
+        run.check(on_line, "C03.R9", e_.owner, stmt_of(e_.call), "a lambda becomes a candidate only if it starts on the callable's first line", "every lambda met after the scan backed up to the start of the statement becomes a candidate, whatever line it starts on - and the collection ends at the first one that spans several lines: in ds.Select(lambda e: e.jets.Select(<newline> lambda j: j.pt)).Select(<newline> lambda e: e.met) the second Select silently records the *first* lambda (same method name, same argument name), not the callable that was passed", "compare the lambda token's line with the line the code object starts on", key="candidates not restricted to the callable's line")
     os_cls = m.find_class("ObjectStream", in_module="func_adl.object_stream")
     from ..lib import view
 
